@@ -1414,11 +1414,36 @@ class SymDict:
         res, pres = self.lookup(k)
         return False if res is None else ENG.decide(pres)
 
+    def _plain(self):
+        """the ordinary dict this container denotes when every write was unconditional with a concrete key"""
+        out = {}
+        for g, k, v in self.w:
+            gs = z3.simplify(g)
+            if z3.is_false(gs):
+                continue
+            if isinstance(k, SymInt):
+                ks = z3.simplify(k.t)
+                if z3.is_bv_value(ks):
+                    k = ks.as_signed_long()
+            if not z3.is_true(gs) or isinstance(k, (SymInt, SymBool, SymStr, SymLabel)):
+                raise Unsupported("dict written under symbolic guards used as a whole (len / iteration / items)")
+            out[k] = v
+        return out
+
     def __len__(self):
-        raise Unsupported("len of guarded dict")
+        return len(self._plain())
 
     def __iter__(self):
-        raise Unsupported("iteration over guarded dict")
+        return iter(self._plain())
+
+    def items(self):
+        return self._plain().items()
+
+    def keys(self):
+        return self._plain().keys()
+
+    def values(self):
+        return self._plain().values()
 
     def __getattr__(self, name):
         if name.startswith("__"):
